@@ -51,6 +51,9 @@ def main() -> int:
     if "--only" in sys.argv:  # e.g. --only "-19,-20": seeds whose id ends with one of the suffixes
         sfx = tuple(sys.argv[sys.argv.index("--only") + 1].split(","))
         seeds = [s for s in seeds if s.endswith(sfx)]
+    if "--props" in sys.argv:  # e.g. --props C16,C02: seeds breaking one of these properties
+        pfx = tuple(x + "-" for x in sys.argv[sys.argv.index("--props") + 1].split(","))
+        seeds = [s for s in seeds if s.startswith(pfx)]
     bad = 0
     with cf.ThreadPoolExecutor(max_workers=jobs) as ex:
         for seed, prop, status, info in ex.map(run, seeds):
